@@ -6,6 +6,8 @@
 //     than the selected codeword -- for every well-formed table within the stated geometry bound.
 //   * single-symbol code: with_single_symbol / single_symbol() / read_symbol consume 0 bits.
 //
+// (cd2.* below: parse_simple for every alphabet size with the code construction cut away, and CONCRETE simple-code
+//  headers end to end through the real with_code_lengths with --max-field-sensitivity-array-size 1024.)
 // NOT UNDER CONTRACT (measured, Kani 0.68 / CBMC 6.11): `with_code_lengths`, hence "decoding the bit-reversed
 // canonical codeword of s (RFC 7932 3.2) returns s and consumes len[s] bits", the two-level table for lengths
 // 11..15, parse_simple and parse_complex. Symbolic execution of with_code_lengths does not terminate within
@@ -41,6 +43,11 @@ impl View {
 
 /// RFC 7932 3.2 / RFC 1951 3.2.2, steps 1-3: returns the codeword of symbol `s` (len[s] > 0).
 fn spec_canonical_prefix_code(lengths: &[u8], s: usize) -> u32 {
+    spec_canonical_prefix_code_upto(lengths, s, 15)
+}
+
+/// the same for codes whose lengths are all <= maxbits (the next_code loop stops there; needs a smaller unwinding bound)
+fn spec_canonical_prefix_code_upto(lengths: &[u8], s: usize, maxbits: usize) -> u32 {
     let mut bl_count = [0u32; 16];
     let mut i = 0;
     while i < lengths.len() {
@@ -50,7 +57,7 @@ fn spec_canonical_prefix_code(lengths: &[u8], s: usize) -> u32 {
     let mut next_code = [0u32; 16];
     let mut code = 0u32;
     let mut bits = 1;
-    while bits <= 15 {
+    while bits <= maxbits {
         code = (code + bl_count[bits - 1]) << 1;
         next_code[bits] = code;
         bits += 1;
@@ -443,3 +450,124 @@ fn parse_simple_lengths_contract() {
     kani::cover!(alphabet_size == 257);
     kani::cover!(alphabet_size == 2);
 }
+
+// ------------------------------------------------------------------------------------------------
+// cd2.*  simple codes END TO END: real parse_simple -> real with_code_lengths -> real read_symbol
+// ------------------------------------------------------------------------------------------------
+// Postcondition: the table decodes the bit-reversed canonical codeword (RFC 7932 3.2: shorter codes first, equal
+// lengths in increasing SYMBOL order -- not transmission order) of every coded symbol to that symbol, consuming its
+// length. Bounds, measured: with the default CBMC field sensitivity (arrays <= 64 bytes) with_code_lengths runs out of
+// memory even on one concrete 4-symbol vector (the 15 x 24-byte Vec<Vec<u16>> spine is a 360-byte heap array; pointers
+// read back from it are not resolved). With --max-field-sensitivity-array-size 1024 (registry cbmc_args) a CONCRETE
+// header closes in ~8 s; SYMBOLIC symbol values still do not (15 min, even NSYM 2 over 5 symbols), nor do the
+// 1024-entry tables of 11..15-bit codes. So: concrete headers only, header fields through a scripted reader
+// (assumed contract of read_bits / read_bool: the next field masked to the requested width; widths recorded and
+// checked). The symbolic part (every alphabet size, every symbol choice) is parse_simple_lengths_contract above.
+const PSCRIPT_POS_BASE: usize = 0x5052_4546_5343_0000;
+static mut PSCRIPT: [u32; 6] = [0x7052_0001, 0x7052_0002, 0x7052_0003, 0x7052_0004, 0x7052_0005, 0x7052_0006];
+static mut PSCRIPT_W: [u32; 6] = [0x7053_0001, 0x7053_0002, 0x7053_0003, 0x7053_0004, 0x7053_0005, 0x7053_0006];
+static mut PSCRIPT_POS: usize = PSCRIPT_POS_BASE;
+fn pscript_read_bool<'a>(_bs: &mut Bitstream<'a>) -> jxl_bitstream::BitstreamResult<bool> where 'a: 'a {
+    unsafe {
+        let k = PSCRIPT_POS - PSCRIPT_POS_BASE;
+        let v = PSCRIPT[k];
+        PSCRIPT_W[k] = 1;
+        PSCRIPT_POS += 1;
+        Ok(v & 1 != 0)
+    }
+}
+fn pscript_read_bits<'a>(_bs: &mut Bitstream<'a>, n: usize) -> jxl_bitstream::BitstreamResult<u32> where 'a: 'a {
+    unsafe {
+        let k = PSCRIPT_POS - PSCRIPT_POS_BASE;
+        let v = PSCRIPT[k];
+        PSCRIPT_W[k] = n as u32;
+        PSCRIPT_POS += 1;
+        Ok(if n >= 32 { v } else { v & ((1u32 << n) - 1) })
+    }
+}
+
+fn run_simple_script(alphabet_size: u32, nsym: usize, syms: [u32; 4], tree: bool) -> CodingResult<Histogram> {
+    unsafe {
+        PSCRIPT = [nsym as u32 - 1, syms[0], syms[1], syms[2], syms[3], tree as u32];
+        PSCRIPT_W = [99; 6];
+        PSCRIPT_POS = PSCRIPT_POS_BASE;
+    }
+    let data = [0u8; 1];
+    let mut bs = Bitstream::new(&data);
+    Histogram::parse_simple(&mut bs, alphabet_size)
+}
+
+/// `syms[nsym..]` are never read (the harnesses put 0 there)
+fn simple_code_e2e<const A: usize>(nsym: usize, syms: [u32; 4], tree: bool) {
+    let alphabet_size = A as u32;
+    let w = spec_alphabet_bits(alphabet_size) as u32;
+    let mut lengths = [0u8; A];
+    let mut i = 0;
+    while i < nsym {
+        lengths[syms[i] as usize] = spec_simple_len(nsym as u64, tree, i);
+        i += 1;
+    }
+    let r = run_simple_script(alphabet_size, nsym, syms, tree);
+    match &r {
+        Ok(h) => {
+            let fields = unsafe { PSCRIPT_POS - PSCRIPT_POS_BASE };
+            assert!(fields == 1 + nsym + (nsym == 4) as usize, "[C04] parse_simple reads NSYM - 1, NSYM symbols and, for NSYM 4, tree_select");
+            let wd = unsafe { PSCRIPT_W };
+            assert!(wd[0] == 2 && wd[1] == w && wd[2] == w && (nsym < 3 || wd[3] == w) && (nsym < 4 || (wd[4] == w && wd[5] == 1)),
+                "[C04] field widths: 2, ALPHABET_BITS per symbol, 1");
+            // every coded symbol: its codeword, followed by arbitrary bits, decodes to it
+            let sy: usize = kani::any();
+            kani::assume(sy < A && lengths[sy] != 0);
+            let len = lengths[sy] as usize;
+            let word = spec_bit_reverse(spec_canonical_prefix_code_upto(&lengths, sy, 3), len as u32);
+            let d2: [u8; 16] = kani::any();
+            let v2 = View::of(&d2, 16);
+            kani::assume(v2.u(0, len) == word);
+            let mut b2 = Bitstream::new(&d2);
+            let q = h.read_symbol(&mut b2);
+            assert!(matches!(q, Ok(x) if x as usize == sy), "[C04] decoding the bit-reversed canonical codeword of s returns s");
+            assert!(b2.num_read_bits() == len, "[C04] exactly len[s] bits are consumed");
+            assert!(h.single_symbol().is_none(), "[C04] a code with >= 2 symbols is not reported as single-symbol");
+        }
+        Err(_) => assert!(false, "[C04] a simple code over distinct symbols of the alphabet is accepted"),
+    }
+    kani::cover!(r.is_ok());
+}
+
+/// exactly one thing wrong (a duplicate, or one symbol == alphabet_size); the accepted siblings are in the same harness
+fn simple_code_rejected<const A: usize>(nsym: usize, syms: [u32; 4], tree: bool) {
+    let r = run_simple_script(A as u32, nsym, syms, tree);
+    assert!(matches!(&r, Err(Error::InvalidPrefixHistogram)), "[C04] a simple code with a repeated symbol or a symbol >= alphabet_size is rejected");
+    kani::cover!(r.is_err());
+}
+
+macro_rules! simple_code_harness {
+    ($name:ident, $body:block) => {
+        #[kani::proof]
+        #[kani::stub(jxl_bitstream::Bitstream::read_bool, pscript_read_bool)]
+        #[kani::stub(jxl_bitstream::Bitstream::read_bits, pscript_read_bits)]
+        #[kani::unwind(10)]
+        fn $name() $body
+    };
+}
+
+// alphabet_size 5 = 2^2 + 1: ALPHABET_BITS 3. All five shapes; symbols in non-monotone transmission order so that
+// "equal lengths in symbol order" differs from "transmission order".
+simple_code_harness!(simple_code_e2e_a5, {
+    simple_code_e2e::<5>(2, [4, 1, 0, 0], false);      // 1,1
+    simple_code_e2e::<5>(3, [2, 3, 0, 0], false);      // 1,2,2: symbol 2 gets the 1-bit code, then 0 before 3
+    simple_code_e2e::<5>(4, [3, 0, 4, 2], false);      // 2,2,2,2
+    simple_code_e2e::<5>(4, [4, 1, 3, 0], true);       // 1,2,3,3
+});
+// alphabet_size 2 (ALPHABET_BITS 1), 4 = 2^2 (ALPHABET_BITS 2), 8 (3) and the rejections next to their accepted siblings
+simple_code_harness!(simple_code_e2e_pow2_and_rejections, {
+    simple_code_e2e::<2>(2, [1, 0, 0, 0], false);
+    simple_code_e2e::<4>(4, [3, 2, 1, 0], true);
+    simple_code_e2e::<8>(3, [7, 0, 5, 0], false);
+    simple_code_rejected::<5>(2, [4, 4, 0, 0], false);      // duplicate
+    simple_code_rejected::<5>(3, [2, 3, 2, 0], false);      // duplicate: first and third
+    simple_code_rejected::<5>(4, [4, 1, 3, 1], true);       // duplicate: second and fourth
+    simple_code_rejected::<5>(4, [3, 0, 3, 2], false);
+    simple_code_rejected::<5>(2, [5, 1, 0, 0], false);      // 5 == alphabet_size fits in ALPHABET_BITS = 3
+    simple_code_rejected::<5>(4, [4, 1, 3, 7], true);
+});
